@@ -64,6 +64,9 @@ Proof.
   intros c r H. cbn [drop_ws]. destruct (Z.leb_spec c 32); [lia | reflexivity].
 Qed.
 
+Lemma drop_ws_nil_cons c : (c <= 32)%Z -> drop_ws [c] = [].
+Proof. intro H. cbn [drop_ws]. destruct (Z.leb_spec c 32); [reflexivity | lia]. Qed.
+
 Lemma starts_app : forall lit l r, starts lit l = Some r -> l = lit ++ r.
 Proof.
   induction lit as [|x lit IH]; intros l r H; cbn [starts] in H.
@@ -401,11 +404,11 @@ Section Refine.
 
   Lemma bsw_sim : forall s l, sfx (off s) l ->
     exists s', buffer_skip_whitespace s = Ok s' /\ dep s' = dep s /\ ws_post (off s') (drop_ws l) /\
-               (off s < len -> off s' < len).
+               (off s < len -> off s' < len) /\ off s <= off s'.
   Proof.
     intros s l Hs. unfold ParseDefs.buffer_skip_whitespace. destruct l as [|c r].
     - rewrite (can_access0_nil _ Hs). cbn [negb]. exists s. split; [reflexivity|]. split; [reflexivity|].
-      split; [|intro; assumption]. cbn [drop_ws ws_post]. left. apply sfx_nil. exact Hs.
+      split; [|split; [intro; assumption | lia]]. cbn [drop_ws ws_post]. left. apply sfx_nil. exact Hs.
     - rewrite (can_access0_cons _ _ _ Hs). cbn [negb].
       destruct (skip_ws_loop_sim (S len) s (c :: r) Hs) as [s' [E [Hs' Hd]]].
       { pose proof (sfx_length _ _ Hs). lia. }
@@ -425,7 +428,9 @@ Section Refine.
         * destruct (sfx_cons _ _ _ Hs) as [Hlt _]. lia.
       + destruct (sfx_cons _ _ _ Hs') as [Hlt _].
         destruct (Nat.eqb_spec (off s') len) as [Heq|Hne]; [lia|].
-        exists s'. split; [reflexivity|]. split; [exact Hd|]. split; [exact Hs' | intro; exact Hlt].
+        exists s'. split; [reflexivity|]. split; [exact Hd|]. split; [exact Hs'|]. split; [intro; exact Hlt|].
+        pose proof (sfx_off _ _ Hs') as H1. pose proof (sfx_off _ _ Hs) as H2.
+        pose proof (drop_ws_length (c :: r)) as H3. rewrite Edw in H3. lia.
   Qed.
 
   (** what the next byte test sees in a stuck state *)
@@ -603,7 +608,7 @@ Section Refine.
           split.
           { destruct (rd4 _ _ _ _ _ _ Hr3) as [_ [_ [_ [_ H4]]]].
             replace (ip + 12) with (S (S (ip + 6)) + 4) by lia. exact H4. }
-          split; [reflexivity|]. lia.
+          split; [exact Esc4|]. cbn [length] in *. lia.
       + destruct (utf8_encode_c fc) as [bb|] eqn:Eu; [|reflexivity].
         exists 6, n2, k2. split; [reflexivity|]. pose proof (utf8_encode_c_len _ _ Eu) as Hbb.
         split; [exact Hr2|]. split; [exact Esc2|]. lia.
@@ -747,5 +752,231 @@ Section Refine.
       + destruct H as [p Ed]. rewrite Ed. cbn [bind]. eexists. reflexivity.
     - rewrite (scan_none_str _ _ Esc). cbn [sim_res]. eexists. reflexivity.
   Qed.
+
+  (** * arrays and objects, given the simulation for values one level down *)
+  Lemma ws_small_ne c x : (c <= 32)%Z -> (32 < x)%Z -> (c =? x)%Z = false.
+  Proof. intros. apply Z.eqb_neq. lia. Qed.
+
+  Section Loops.
+    Variable pv : pst -> res (option node * pst).
+    Variable vl : bytes -> option (node * bytes).
+    Variable d : Z.
+    Variable B : nat.
+    Hypothesis Hpv : forall s l, sfx (off s) l -> dep s = d -> length l < B ->
+      sim_res (pv s) (vl l) d (length l).
+    Hypothesis Hstuck : forall s, stuck (off s) -> exists s', pv s = Ok (None, s').
+    Hypothesis Hvl_nil : vl [] = None.
+
+    (* a value after whitespace *)
+    Lemma pv_after_ws s l : sfx (off s) l -> dep s = d -> length l < B ->
+      exists s2, buffer_skip_whitespace s = Ok s2 /\
+        sim_res (pv s2) (vl (drop_ws l)) d (length l).
+    Proof.
+      intros Hs Hd HB. destruct (bsw_sim s l Hs) as [s2 [E [Hd2 [Hpost _]]]].
+      exists s2. split; [exact E|]. pose proof (drop_ws_length l) as Hdl.
+      destruct (drop_ws l) as [|c r] eqn:Edw.
+      - rewrite Hvl_nil. cbn [sim_res]. apply Hstuck. exact Hpost.
+      - cbn [ws_post] in Hpost. pose proof (Hpv s2 (c :: r) Hpost ltac:(lia) ltac:(lia)) as H.
+        destruct (vl (c :: r)) as [[t rest]|]; cbn [sim_res] in *; [|exact H].
+        destruct H as [s' [E' [Hs' [Hd' Hl']]]]. exists s'. split; [exact E'|]. split; [exact Hs'|]. split; [exact Hd'|]. lia.
+    Qed.
+
+    (* the separator test after whitespace: [K] is what the model does on a separator byte *)
+    Lemma sep_after_ws s l : sfx (off s) l ->
+      exists s2, buffer_skip_whitespace s = Ok s2 /\ dep s2 = dep s /\
+        match drop_ws l with
+        | c :: r => can_access s2 0 = true /\ rdb (off s2) = Ok c /\ sfx (off s2 + 1) r /\ length r < length l
+        | [] => can_access s2 0 = false \/ (can_access s2 0 = true /\ exists c, rdb (off s2) = Ok c /\ (c <= 32)%Z)
+        end.
+    Proof.
+      intros Hs. destruct (bsw_sim s l Hs) as [s2 [E [Hd2 [Hpost _]]]].
+      exists s2. split; [exact E|]. split; [exact Hd2|]. pose proof (drop_ws_length l) as Hdl.
+      destruct (drop_ws l) as [|c r] eqn:Edw.
+      - apply stuck_peek. exact Hpost.
+      - cbn [ws_post] in Hpost. split; [eapply can_access0_cons; exact Hpost|].
+        destruct (sfx_cons _ _ _ Hpost) as [_ [Hrd Hr]]. split; [exact Hrd|].
+        rewrite Nat.add_1_r. split; [exact Hr|]. cbn [length] in Hdl. lia.
+    Qed.
+
+    Lemma array_loop_sim : forall fuel k s l0 acc,
+      sfx (off s + 1) l0 -> dep s = d -> length l0 < fuel -> length l0 < k -> length l0 < B ->
+      match elems_l vl k l0 acc with
+      | Some (items, rest) => exists s', array_loop pv fuel s acc = Ok (Some items, s') /\
+          sfx (off s' + 1) rest /\ dep s' = d /\ length rest < length l0
+      | None => exists s', array_loop pv fuel s acc = Ok (None, s')
+      end.
+    Proof.
+      induction fuel as [|f IH]; intros k s l0 acc Hs Hd Hf Hk HB; [lia|].
+      destruct k as [|k]; [lia|].
+      cbn [ParseDefs.array_loop elems_l]. cbn [ParseDefs.alloc never_fails negb]. cbv beta iota.
+      set (s1 := mkpst (off s) (dep s) (S (req s)) (live s + 1)).
+      destruct (pv_after_ws (add_off s1 1) l0 Hs Hd HB) as [s2 [E2 H2]].
+      rewrite E2. cbn [bind].
+      destruct (vl (drop_ws l0)) as [[v r2]|]; cbn [sim_res] in H2.
+      - destruct H2 as [s3 [E3 [Hs3 [Hd3 Hl3]]]]. rewrite E3. cbn [bind].
+        destruct (sep_after_ws s3 r2 Hs3) as [s4 [E4 [Hd4 H4]]]. rewrite E4. cbn [bind].
+        destruct (drop_ws r2) as [|c2 r3].
+        + destruct H4 as [Hca | [Hca [c [Hrd Hc]]]]; rewrite Hca; [eexists; reflexivity|].
+          rewrite Hrd. cbn [bind]. rewrite (ws_small_ne c 44), (ws_small_ne c 93) by lia.
+          eexists; reflexivity.
+        + destruct H4 as [Hca [Hrd [Hs4 Hl4]]]. rewrite Hca, Hrd. cbn [bind].
+          destruct (c2 =? 44)%Z.
+          * pose proof (IH k s4 r3 (v :: acc) Hs4 ltac:(lia) ltac:(lia) ltac:(lia) ltac:(lia)) as H.
+            destruct (elems_l vl k r3 (v :: acc)) as [[items rest]|]; [|exact H].
+            destruct H as [s' [E' [Hs' [Hd' Hl']]]]. exists s'. split; [exact E'|]. split; [exact Hs'|]. split; [exact Hd'|]. lia.
+          * destruct (c2 =? 93)%Z; [|eexists; reflexivity].
+            exists s4. split; [reflexivity|]. split; [exact Hs4|]. split; [lia | lia].
+      - destruct H2 as [s3 E3]. rewrite E3. cbn [bind]. eexists; reflexivity.
+    Qed.
+
+    Lemma parse_array_sim s r : sfx (off s) (91%Z :: r) -> (dep s + 1)%Z = d -> length r < B ->
+      sim_res (parse_array pv s)
+              (if (c_CJSON_NESTING_LIMIT <=? dep s)%Z then None else array_l vl r) (dep s) (length (91%Z :: r)).
+    Proof.
+      intros Hs Hd HB. unfold ParseDefs.parse_array.
+      destruct (c_CJSON_NESTING_LIMIT <=? dep s)%Z; [cbn [sim_res]; eexists; reflexivity|].
+      destruct (sfx_cons _ _ _ Hs) as [Hlt [Hrd Hr]].
+      cbn [set_dep off]. rewrite Hrd. cbn [bind]. rewrite Z.eqb_refl. cbn [negb].
+      destruct (bsw_sim (add_off (mkpst (off s) (dep s + 1) (req s) (live s)) 1) r) as [s1 [E1 [Hd1 [Hpost [_ Hmono]]]]].
+      { cbn [add_off set_off off]. rewrite Nat.add_1_r. exact Hr. }
+      cbn [add_off set_off off dep] in Hd1, Hmono.
+      rewrite E1. cbn [bind]. unfold array_l. pose proof (drop_ws_length r) as Hdl.
+      destruct (drop_ws r) as [|c1 r1] eqn:Edw; cbn [ws_post] in Hpost.
+      - (* only whitespace after the bracket *)
+        cbn [sim_res]. destruct Hpost as [Hend | [c [Hc Hc32]]].
+        + assert (Hca : can_access s1 0 = false) by (unfold ParseDefs.can_access; apply Nat.ltb_ge; lia).
+          rewrite Hca. eexists; reflexivity.
+        + rewrite (can_access0_cons _ _ _ Hc). destruct (sfx_cons _ _ _ Hc) as [Hlt1 [Hrd1 _]].
+          rewrite Hrd1. cbn [bind]. rewrite (ws_small_ne c 93) by lia.
+          pose proof (array_loop_sim (S len) 2 (set_off s1 (off s1 - 1)) [c] []) as H.
+          cbn [set_off off dep] in H.
+          replace (off s1 - 1 + 1) with (off s1) in H by lia.
+          specialize (H Hc ltac:(lia) ltac:(cbn [length]; lia) ltac:(cbn [length]; lia)).
+          assert (HB1 : length [c] < B).
+          { pose proof (sfx_length _ _ Hr). pose proof (sfx_off _ _ Hc). cbn [length] in *. lia. }
+          specialize (H HB1). cbn [elems_l] in H. rewrite (drop_ws_nil_cons c) in H by exact Hc32.
+          rewrite Hvl_nil in H. destruct H as [s' E']. rewrite E'. cbn [bind]. eexists; reflexivity.
+      - rewrite (can_access0_cons _ _ _ Hpost). destruct (sfx_cons _ _ _ Hpost) as [Hlt1 [Hrd1 Hr1]].
+        rewrite Hrd1. cbn [bind]. destruct (c1 =? 93)%Z.
+        + cbn [sim_res]. eexists. split; [reflexivity|]. cbn [add_off set_off set_dep off dep].
+          split; [rewrite Nat.add_1_r; exact Hr1|]. split; [lia|]. cbn [length] in *. lia.
+        + pose proof (array_loop_sim (S len) (S (length r)) (set_off s1 (off s1 - 1)) (c1 :: r1) []) as H.
+          cbn [set_off off dep] in H.
+          replace (off s1 - 1 + 1) with (off s1) in H by lia.
+          pose proof (sfx_length _ _ Hpost) as Hl1.
+          specialize (H Hpost ltac:(lia) ltac:(lia) ltac:(lia) ltac:(lia)).
+          destruct (elems_l vl (S (length r)) (c1 :: r1) []) as [[items rest]|]; cbn [sim_res].
+          * destruct H as [s2 [E2 [Hs2 [Hd2 Hl2]]]]. rewrite E2. cbn [bind].
+            eexists. split; [reflexivity|]. cbn [add_off set_off set_dep off dep].
+            split; [exact Hs2|]. split; [lia|]. cbn [length] in *. lia.
+          * destruct H as [s2 E2]. rewrite E2. cbn [bind]. eexists; reflexivity.
+    Qed.
+
+    Lemma object_loop_sim : forall fuel k s l0 acc,
+      sfx (off s + 1) l0 -> dep s = d -> length l0 < fuel -> length l0 < k -> length l0 < B ->
+      match members_l vl k l0 acc with
+      | Some (items, rest) => exists s', object_loop pv fuel s acc = Ok (Some items, s') /\
+          sfx (off s' + 1) rest /\ dep s' = d /\ length rest < length l0
+      | None => exists s', object_loop pv fuel s acc = Ok (None, s')
+      end.
+    Proof.
+      induction fuel as [|f IH]; intros k s l0 acc Hs Hd Hf Hk HB; [lia|].
+      destruct k as [|k]; [lia|].
+      cbn [ParseDefs.object_loop members_l]. cbn [ParseDefs.alloc never_fails negb]. cbv beta iota.
+      set (s1 := mkpst (off s) (dep s) (S (req s)) (live s + 1)).
+      destruct l0 as [|x0 l0'].
+      { (* nothing after the separator *)
+        apply sfx_nil in Hs.
+        assert (Hca : can_access s1 1 = false) by (unfold ParseDefs.can_access; apply Nat.ltb_ge; cbn [off s1]; lia).
+        rewrite Hca. cbn [negb drop_ws]. eexists; reflexivity. }
+      assert (Hca : can_access s1 1 = true).
+      { destruct (sfx_cons _ _ _ Hs) as [Hlt _]. unfold ParseDefs.can_access. apply Nat.ltb_lt. cbn [off s1]. lia. }
+      rewrite Hca. cbn [negb].
+      destruct (bsw_sim (add_off s1 1) (x0 :: l0') Hs) as [s2 [E2 [Hd2 [Hpost [Hlt2 _]]]]].
+      rewrite E2. cbn [bind]. pose proof (drop_ws_length (x0 :: l0')) as Hdl.
+      assert (Hoff2 : off s2 < len).
+      { apply Hlt2. destruct (sfx_cons _ _ _ Hs) as [Hlt _]. exact Hlt. }
+      destruct (drop_ws (x0 :: l0')) as [|q rq] eqn:Edw; cbn [ws_post] in Hpost.
+      { (* only whitespace before the end: parse_string sees a whitespace byte *)
+        destruct Hpost as [Hend | [c [Hc Hc32]]]; [lia|].
+        pose proof (parse_string_sim s2 c [] Hc) as H. rewrite (ws_small_ne c 34) in H by lia.
+        destruct H as [s3 E3]. rewrite E3. cbn [bind]. eexists; reflexivity. }
+      pose proof (parse_string_sim s2 q rq Hpost) as H3.
+      destruct (q =? 34)%Z; cbn [negb]; cbn [sim_res] in H3;
+        [| destruct H3 as [s3 E3]; rewrite E3; cbn [bind]; eexists; reflexivity].
+      destruct (string_l rq) as [[key r2]|]; cbn [sim_res] in H3;
+        [| destruct H3 as [s3 E3]; rewrite E3; cbn [bind]; eexists; reflexivity].
+      destruct H3 as [s3 [E3 [Hs3 [Hd3 Hl3]]]]. rewrite E3. cbn [bind].
+      destruct (sep_after_ws s3 r2 Hs3) as [s4 [E4 [Hd4 H4]]]. rewrite E4. cbn [bind].
+      destruct (drop_ws r2) as [|col r3].
+      { destruct H4 as [Hca4 | [Hca4 [c [Hrd Hc]]]]; rewrite Hca4; cbn [negb]; [eexists; reflexivity|].
+        rewrite Hrd. cbn [bind]. rewrite (ws_small_ne c 58) by lia. cbn [negb]. eexists; reflexivity. }
+      destruct H4 as [Hca4 [Hrd4 [Hs4 Hl4]]]. rewrite Hca4, Hrd4. cbn [bind negb].
+      destruct (col =? 58)%Z; cbn [negb]; [|eexists; reflexivity].
+      cbn [length] in *.
+      destruct (pv_after_ws (add_off s4 1) r3 Hs4 ltac:(cbn [add_off set_off dep]; lia) ltac:(lia)) as [s5 [E5 H5]].
+      rewrite E5. cbn [bind].
+      destruct (vl (drop_ws r3)) as [[v0 r4]|]; cbn [sim_res] in H5;
+        [| destruct H5 as [s6 E6]; rewrite E6; cbn [bind]; eexists; reflexivity].
+      destruct H5 as [s6 [E6 [Hs6 [Hd6 Hl6]]]]. rewrite E6. cbn [bind].
+      destruct (sep_after_ws s6 r4 Hs6) as [s7 [E7 [Hd7 H7]]]. rewrite E7. cbn [bind].
+      destruct (drop_ws r4) as [|c2 r5].
+      { destruct H7 as [Hca7 | [Hca7 [c [Hrd Hc]]]]; rewrite Hca7; [eexists; reflexivity|].
+        rewrite Hrd. cbn [bind]. rewrite (ws_small_ne c 44), (ws_small_ne c 125) by lia.
+        eexists; reflexivity. }
+      destruct H7 as [Hca7 [Hrd7 [Hs7 Hl7]]]. rewrite Hca7, Hrd7. cbn [bind].
+      destruct (c2 =? 44)%Z.
+      - pose proof (IH k s7 r5 (with_key key v0 :: acc) Hs7 ltac:(lia) ltac:(lia) ltac:(lia) ltac:(lia)) as H.
+        destruct (members_l vl k r5 (with_key key v0 :: acc)) as [[items rest]|]; [|exact H].
+        destruct H as [s' [E' [Hs' [Hd' Hl']]]]. exists s'. split; [exact E'|]. split; [exact Hs'|]. split; [exact Hd'|]. lia.
+      - destruct (c2 =? 125)%Z; [|eexists; reflexivity].
+        exists s7. split; [reflexivity|]. split; [exact Hs7|]. split; lia.
+    Qed.
+
+    Lemma parse_object_sim s r : sfx (off s) (123%Z :: r) -> (dep s + 1)%Z = d -> length r < B ->
+      sim_res (parse_object pv s)
+              (if (c_CJSON_NESTING_LIMIT <=? dep s)%Z then None else object_l vl r) (dep s) (length (123%Z :: r)).
+    Proof.
+      intros Hs Hd HB. unfold ParseDefs.parse_object.
+      destruct (c_CJSON_NESTING_LIMIT <=? dep s)%Z; [cbn [sim_res]; eexists; reflexivity|].
+      destruct (sfx_cons _ _ _ Hs) as [Hlt [Hrd Hr]].
+      assert (Hca0 : can_access (set_dep s (dep s + 1)) 0 = true).
+      { unfold ParseDefs.can_access. cbn [set_dep off]. apply Nat.ltb_lt. lia. }
+      rewrite Hca0. cbn [negb].
+      cbn [set_dep off]. rewrite Hrd. cbn [bind]. rewrite Z.eqb_refl. cbn [negb].
+      destruct (bsw_sim (add_off (mkpst (off s) (dep s + 1) (req s) (live s)) 1) r) as [s1 [E1 [Hd1 [Hpost [_ Hmono]]]]].
+      { cbn [add_off set_off off]. rewrite Nat.add_1_r. exact Hr. }
+      cbn [add_off set_off off dep] in Hd1, Hmono.
+      rewrite E1. cbn [bind]. unfold object_l. pose proof (drop_ws_length r) as Hdl.
+      destruct (drop_ws r) as [|c1 r1] eqn:Edw; cbn [ws_post] in Hpost.
+      - cbn [sim_res]. destruct Hpost as [Hend | [c [Hc Hc32]]].
+        + assert (Hca : can_access s1 0 = false) by (unfold ParseDefs.can_access; apply Nat.ltb_ge; lia).
+          rewrite Hca. eexists; reflexivity.
+        + rewrite (can_access0_cons _ _ _ Hc). destruct (sfx_cons _ _ _ Hc) as [Hlt1 [Hrd1 _]].
+          rewrite Hrd1. cbn [bind]. rewrite (ws_small_ne c 125) by lia.
+          pose proof (object_loop_sim (S len) 2 (set_off s1 (off s1 - 1)) [c] []) as H.
+          cbn [set_off off dep] in H.
+          replace (off s1 - 1 + 1) with (off s1) in H by lia.
+          specialize (H Hc ltac:(lia) ltac:(cbn [length]; lia) ltac:(cbn [length]; lia)).
+          assert (HB1 : length [c] < B).
+          { pose proof (sfx_length _ _ Hr). pose proof (sfx_off _ _ Hc). cbn [length] in *. lia. }
+          specialize (H HB1). cbn [members_l] in H. rewrite (drop_ws_nil_cons c) in H by exact Hc32.
+          destruct H as [s' E']. rewrite E'. cbn [bind]. eexists; reflexivity.
+      - rewrite (can_access0_cons _ _ _ Hpost). destruct (sfx_cons _ _ _ Hpost) as [Hlt1 [Hrd1 Hr1]].
+        rewrite Hrd1. cbn [bind]. destruct (c1 =? 125)%Z.
+        + cbn [sim_res]. eexists. split; [reflexivity|]. cbn [add_off set_off set_dep off dep].
+          split; [rewrite Nat.add_1_r; exact Hr1|]. split; [lia|]. cbn [length] in *. lia.
+        + pose proof (object_loop_sim (S len) (S (length r)) (set_off s1 (off s1 - 1)) (c1 :: r1) []) as H.
+          cbn [set_off off dep] in H.
+          replace (off s1 - 1 + 1) with (off s1) in H by lia.
+          pose proof (sfx_length _ _ Hpost) as Hl1.
+          specialize (H Hpost ltac:(lia) ltac:(lia) ltac:(lia) ltac:(lia)).
+          destruct (members_l vl (S (length r)) (c1 :: r1) []) as [[items rest]|]; cbn [sim_res].
+          * destruct H as [s2 [E2 [Hs2 [Hd2 Hl2]]]]. rewrite E2. cbn [bind].
+            eexists. split; [reflexivity|]. cbn [add_off set_off set_dep off dep].
+            split; [exact Hs2|]. split; [lia|]. cbn [length] in *. lia.
+          * destruct H as [s2 E2]. rewrite E2. cbn [bind]. eexists; reflexivity.
+    Qed.
+  End Loops.
 
 End Refine.
